@@ -78,6 +78,8 @@ def py_truth_table(text, args):
     import re
     # constants 0/1 must behave as Booleans under ~
     t = re.sub(r'\b([01])\b', r'B(\1)', text)
+    t = re.sub(r'\bTrue\b', 'B(1)', t)
+    t = re.sub(r'\bFalse\b', 'B(0)', t)
     out = []
     for a in itertools.product((0, 1), repeat=len(args)):
         env = dict((v, B(x)) for v, x in zip(args, a))
@@ -101,7 +103,8 @@ def flat_exprs():
             if ('not' in x + y + z) and ('&' in s1 + s2 or '|' in s1 + s2):
                 continue
             out.append(x + s1 + y + s2 + z)
-    out += ['not a and b', 'not a or b and c', 'not (a or b) and c', '~a & b | c & ~d', 'a | b & c | d',
+    out += ['a & True', 'True & a | b', 'a | False', '(a & True) | (False & b)', 'not True or a', '~False & a',
+            'a and True and b', 'False or a or False', 'not a and b', 'not a or b and c', 'not (a or b) and c', '~a & b | c & ~d', 'a | b & c | d',
             'a and b and c and d and a', 'a or b or c or d or ~a', 'not not a', '~~a & b',
             'a and (b or c or d)', '(a and b and c) or (b and c and d)', 'a & b & c & d', 'a | b | c | d']
     return out
@@ -216,11 +219,18 @@ def run_shard(shard, tier, seed, acc):
             if deadline_passed():
                 acc.capped()
                 return
-            o = OBDD(tt.dnf(t), order)
+            caller_list = list(order)
+            o = OBDD(tt.dnf(t), caller_list)
+            # the caller keeps using (and changing) the list it passed in
+            caller_list.reverse()
+            caller_list.append('unused_%d' % len(caller_list))
             nontriv = 1 if (any(t) and not all(t)) else 0
             case = {'vars': V, 'order': order, 'f': [int(x) for x in t]}
             s_root = str(o.root)
             s_full = str(o)
+            if not s_full.startswith('lambda %s:' % ','.join(order)):
+                acc.violation('print-full-differs', dict(case, printed=s_full, note='ordering list was mutated by '
+                                                         'the caller after construction'), 'lambda %s: ...' % ','.join(order), s_full)
             r1 = call(OBDD, s_root, list(order))
             r2 = call(OBDD, s_full)
             acc.ev(2, 2 * nontriv)
